@@ -125,4 +125,18 @@ PROPS = {
                       "fully successful writes.",
         "assumptions": ["documents shorter than 2^31 bytes"],
     },
+    "C17": {
+        "streams": ["uncompressed"],
+        "rule": "uncompressed: every history of length <= 3 (thorough: 4) over {Add of 5 documents (two field counts, nested schemas), unreadable Add, Resolve, "
+                "Reset, Flush, SetMetadata, Info} x {plain, streaming, streamingDynamic} x {bson, json} x batch size {1,2}; random histories of 10-70 operations, "
+                "batch sizes 1-4. Oracle: writer ++ Resolve parsed as a BSON sequence / JSON lines = every accepted, not discarded sample, byte-identical (BSON) or "
+                "value-identical per line (JSON), in order, once; pending <= batch size. Distinct = distinct history line.",
+        "level_text": "Theorems (Props/C17.lean): output = metadata (if set) ++ held samples and nothing else; accepted Add appends exactly that document, rejected Add "
+                      "changes nothing; pending never exceeds the batch size for every sequence of Adds; Reset keeps encoding and metadata; a streaming flush writes "
+                      "exactly the resolved documents once and conserves written ++ pending; the schema-aware variant resets in place (fix F16).",
+        "level_note": "The JSON rendering of one document (bson.MarshalExtJSON) is external: the oracle parses every line back and compares values. In the streaming variants "
+                      "the metadata document precedes the samples of every flush (each flush is one Resolve). A rejected Add of a non-empty document into a collector holding "
+                      "only empty documents changes the remembered field count (corner outside this property; noted in DESIGN.md).",
+        "assumptions": ["batch size >= 1"],
+    },
 }
